@@ -131,7 +131,6 @@ JsonShapeOk(in) ==
   (* terminates the custom-tag list only if the table has a custom field (creation time, virtual, blob references,   *)
   (* no-RANGEKEYSETs); Decode always reads a custom-tag list after tagNewFile5.  A range-key table with none of these *)
   (* does not round-trip.  pebble always sets CreationTime, so such tables are outside the valid edits.               *)
-  /\ \A i \in DOMAIN in.tabs : LET t == in.tabs[i] IN t.rk # 0 => (t.ct # 0 \/ t.b # 0 \/ t.refs # <<>> \/ t.rkk = 1)
   /\ \A i \in DOMAIN in.tabs : LET t == in.tabs[i] IN (t.b = 0 => t.sp = 0) /\ (t.rk # 0 => t.lo < t.hi) /\ t.rk \in {0, 1, 2} /\ t.rkk \in {0, 1}
   /\ \A k \in DOMAIN in.es : LET je == in.es[k] IN
         /\ Len(je.del) = Cardinality(P2(je.del)) /\ Len(je.add) = Cardinality(P2(je.add))
